@@ -788,6 +788,53 @@ package eval
 //@     invariant [covered-so-far] (and (>= $maxStackSize 1) (fresh $f) (= (len $f) (len (fld $e nodes))) (= (off $f) 0)
 //@      (forall ((k Int)) (! (=> (and (<= 0 k) (<= k $rangeindex)) (or (< (fld (NODEAT $e k) osTop) $maxStackSize) (= (fld (NODEAT $e k) osTop) 32767))) :pattern ((NODEAT $e k)))))
 
+// C04 / C05 — the pass that tells every node which and/or it is an operand of (what TryEval's upward propagation
+// reads): exactly the parent-operator bits change; an operand of and gets the and bit, an operand of or the or bit,
+// a branch of an `if` inherits the bits of the `if` node (so that a deciding branch value short-circuits the and/or the
+// `if` is an operand of - finding F9), the end-if marker and the condition inherit nothing.
+//@ macro (ISANDN $p) (and (or (= (KIND $p) 3) (= (KIND $p) 4)) (or (= (fld $p value) (V_string "and")) (= (fld $p value) (V_string "&")) (= (fld $p value) (V_string "&&"))))
+//@ macro (ISORN $p) (and (or (= (KIND $p) 3) (= (KIND $p) 4)) (or (= (fld $p value) (V_string "or")) (= (fld $p value) (V_string "|")) (= (fld $p value) (V_string "||"))))
+//@ macro (BIT5 $f) (>= (mod (div $f 32) 2) 1)
+//@ macro (BIT6 $f) (>= (mod (div $f 64) 2) 1)
+//@ macro (INNODES $e $j) (and (<= (off (fld $e nodes)) $j) (< $j (+ (off (fld $e nodes)) (len (fld $e nodes)))))
+//@ macro (RCOKEEPS $e $j) (let ((f (fld (select (arr (fld $e nodes)) $j) flag)) (f0 (old (fld (select (arr (fld $e nodes)) $j) flag))))
+//@    (and (= (mod f 8) (mod f0 8)) (= (mod f 32) (mod f0 32)) (= (div f 128) (div f0 128))))
+//@ macro (RCOCASE $e $j) (let ((k (- $j (off (fld $e nodes)))) (nd (select (arr (fld $e nodes)) $j)))
+//@   (let ((q (PARENTAT $e k)))
+//@    (ite (= q -1) 0 (let ((pn (NODEAT $e q)))
+//@      (ite (ISANDN pn) 1 (ite (ISORN pn) 2
+//@      (ite (and (= (KIND pn) 5) (> k q) (not (= (fld nd value) (V_string "fi")))) 3 4)))))))
+//@ ghost (declare-fun rcoCase (Int) Int)
+//@ macro (NFLAG $e $j) (fld (select (arr (fld $e nodes)) $j) flag)
+//@ macro (PFLAG $e $j) (fld (NODEAT $e (PARENTAT $e (- $j (off (fld $e nodes))))) flag)
+//@ macro (RCOALL $e $hi BODY) (forall ((j Int)) (! (=> (and (<= (off (fld $e nodes)) j) (< j $hi)) BODY) :pattern ((select (arr (fld $e nodes)) j))))
+//@ macro (RCO1 $e) (=> (= (rcoCase j) 1) (and (BIT5 (NFLAG $e j)) (= (BIT6 (NFLAG $e j)) (BIT6 (old (NFLAG $e j))))))
+//@ macro (RCO2 $e) (=> (= (rcoCase j) 2) (and (BIT6 (NFLAG $e j)) (= (BIT5 (NFLAG $e j)) (BIT5 (old (NFLAG $e j))))))
+//@ macro (RCO35 $e) (=> (= (rcoCase j) 3) (= (BIT5 (NFLAG $e j)) (or (BIT5 (old (NFLAG $e j))) (BIT5 (PFLAG $e j)))))
+//@ macro (RCO36 $e) (=> (= (rcoCase j) 3) (= (BIT6 (NFLAG $e j)) (or (BIT6 (old (NFLAG $e j))) (BIT6 (PFLAG $e j)))))
+//@ macro (RCO04 $e) (=> (or (= (rcoCase j) 0) (= (rcoCase j) 4)) (= (NFLAG $e j) (old (NFLAG $e j))))
+//@ func calAndSetShortCircuitForRCO C04 C05 C06
+//@   requires [shape] (and (PROGSHAPE $e)
+//@      (forall ((j Int)) (! (=> (INNODES $e j)
+//@         (let ((nd (select (arr (fld $e nodes)) j))) (and (= (idxOf nd) (- j (off (fld $e nodes))))
+//@            (= (rcoCase j) (RCOCASE $e j))
+//@            (=> (or (= (KIND nd) 3) (= (KIND nd) 4)) (is.string (fld nd value)))))) :pattern ((select (arr (fld $e nodes)) j)))))
+//@   ensures [only-parent-operator-bits-change] (forall ((j Int)) (! (=> (INNODES $e j) (RCOKEEPS $e j)) :pattern ((select (arr (fld $e nodes)) j))))
+//@   ensures [operand-of-and] (RCOALL $e (+ (off (fld $e nodes)) (len (fld $e nodes))) (RCO1 $e))
+//@   ensures [operand-of-or] (RCOALL $e (+ (off (fld $e nodes)) (len (fld $e nodes))) (RCO2 $e))
+//@   ensures [if-branch-inherits-and-bit] (RCOALL $e (+ (off (fld $e nodes)) (len (fld $e nodes))) (RCO35 $e))
+//@   ensures [if-branch-inherits-or-bit] (RCOALL $e (+ (off (fld $e nodes)) (len (fld $e nodes))) (RCO36 $e))
+//@   ensures [everything-else-untouched] (RCOALL $e (+ (off (fld $e nodes)) (len (fld $e nodes))) (RCO04 $e))
+//@   loop 1 (rangeindex)
+//@     invariant [other-bits-kept] (forall ((j Int)) (! (=> (INNODES $e j) (RCOKEEPS $e j)) :pattern ((select (arr (fld $e nodes)) j))))
+//@     invariant [done-and] (RCOALL $e (+ (off (fld $e nodes)) $rangeindex 1) (RCO1 $e))
+//@     invariant [done-or] (RCOALL $e (+ (off (fld $e nodes)) $rangeindex 1) (RCO2 $e))
+//@     invariant [done-if5] (RCOALL $e (+ (off (fld $e nodes)) $rangeindex 1) (RCO35 $e))
+//@     invariant [done-if6] (RCOALL $e (+ (off (fld $e nodes)) $rangeindex 1) (RCO36 $e))
+//@     invariant [done-else] (RCOALL $e (+ (off (fld $e nodes)) $rangeindex 1) (RCO04 $e))
+//@     invariant [untouched-suffix] (forall ((j Int)) (! (=> (and (< (+ (off (fld $e nodes)) $rangeindex) j) (< j (+ (off (fld $e nodes)) (len (fld $e nodes)))))
+//@          (= (NFLAG $e j) (old (NFLAG $e j)))) :pattern ((select (arr (fld $e nodes)) j))))
+
 //@ func check C09 C06
 //@   requires [tree] (and (inTree $root) (ASTOK))
 //@   ensures [accepted] (=> (= (fld $ret0 err) ENil) (and (= (fld $ret0 size) (TS $root)) (<= (TS $root) 32767) (AO $root)))
